@@ -4,8 +4,10 @@ The user model handed to tangermeme.predict.predict is a recording module that c
 BatchNorm1d and a Dropout (so that train vs eval mode changes its output, and BatchNorm even
 raises on a one-row batch in training mode) followed by an exact-integer encoding head:
 output j of example i is (j+1) * (X[i] ++ args[0][i] ++ args[1][i] ++ ...).  Every forward call
-appends (self.training, torch.is_grad_enabled(), rows of X, rows of every arg) to a log.
-The returned value, the full call trace and "inputs unmodified" go to Coq, where the
+appends (the training flag of EVERY module of model.modules(), torch.is_grad_enabled(), rows of X,
+rows of every arg) to a log.  The module is handed over in varied states (all training, all eval,
+root in eval mode with children in training mode, ...).  The returned value, the full call trace,
+"inputs unmodified" and "batch-norm buffers unmodified" go to Coq, where the
 executable model (equality) and the decidable spec are evaluated.
 """
 import torch
@@ -20,14 +22,16 @@ CASE_TYPE = 'case'
 CHECK = 'check_case'
 RULE = ('n in 1..40 x batch_size in 1..n+3 x 0-3 extra args x {tensor, tuple, list} outputs '
         '(thorough: every combination; quick: every b for a grid of n, kinds rotated), module and '
-        'autograd state before the call varied, X 2-D/3-D, args 1-D/2-D int64/float32, passed as '
+        'autograd state before the call varied (per-module training flags: all training / all eval / root '
+        'eval with bn and/or dropout in training mode / root training with a child in eval mode), X 2-D/3-D, args 1-D/2-D int64/float32, passed as '
         'tuple/list/None; per-example-distinct values in X and in every arg (independent '
         'permutations); plus a stream with an args entry of another leading dimension (must raise) '
         'and batch sizes <= 0 (outside the property: anything goes); non-trivial = n mod b != 0, or '
         'args present with per-example-distinct values')
 EXHAUSTIVE = {'quick': False, 'thorough': True}
 TRUSTED = ['the recording torch module (BatchNorm1d(eps=0, default running stats) + Dropout + integer '
-           'encoding head) and its log of (training, grad, rows) per forward call']
+           'encoding head) and its log of (training flag of every sub-module, grad, rows) per forward call; '
+           'bitwise comparison of the batch-norm buffers before/after the call']
 ASSUMPTIONS = ['the user model acts example-wise in evaluation mode (Section variable hs in '
                'c03_predict_examplewise; the harness module is one such model)',
                'torch slicing a[start:end] and torch.cat implement firstn/skipn and concatenation '
@@ -45,7 +49,7 @@ class Recorder(torch.nn.Module):
         self.log = []
 
     def forward(self, X, *args):
-        self.log.append((bool(self.training), bool(torch.is_grad_enabled()),
+        self.log.append(([bool(m.training) for m in self.modules()], bool(torch.is_grad_enabled()),
                          X.detach().clone(), [a.detach().clone() for a in args]))
         z = torch.cat([X.reshape(X.shape[0], -1).float()] +
                       [a.reshape(a.shape[0], -1).float() for a in args], dim=1)
@@ -81,12 +85,22 @@ def width_of(inp):
     return max(w, 1)
 
 
+def modes_of(inp):
+    if 'modes' in inp:
+        return [bool(t) for t in inp['modes']]
+    return [bool(inp.get('train0', False))] * 3
+
+
 def run_impl(inp):
     from tangermeme.predict import predict
     X, args = build(inp)
     X0, args0 = X.clone(), [a.clone() for a in args]
     model = Recorder(width_of(inp), inp['kind'], inp['heads'])
-    model.train(bool(inp['train0']))
+    # the history of the module before the call: a training flag per module of model.modules()
+    # (root, bn, drop) -- e.g. model.eval(); model.drop.train() gives [False, False, True]
+    for m, t in zip(model.modules(), modes_of(inp)):
+        m.training = bool(t)
+    buf0 = [b.detach().clone() for b in model.buffers()]
     form = inp.get('args_form', 'tuple')
     if form == 'none' and not args:
         pargs = None
@@ -110,6 +124,7 @@ def run_impl(inp):
     for tr, gr, Xw, Aw in model.log:
         trace.append({'tr': tr, 'gr': gr, 'X': rows_of(Xw), 'args': [rows_of(a) for a in Aw]})
     out['trace'] = trace
+    out['buffers_unchanged'] = bool(all(torch.equal(a, b) for a, b in zip(model.buffers(), buf0)))
     out['unchanged'] = bool(torch.equal(X, X0) and X.dtype == X0.dtype and
                             all(torch.equal(a, b) and a.dtype == b.dtype for a, b in zip(args, args0)))
     return out
@@ -125,7 +140,7 @@ def rows_lit(r):
 def coq_case(inp, out):
     kind = {'tensor': 'KTensor', 'tuple': 'KTuple', 'list': 'KList'}[inp['kind']]
     call = '(Call %s %s (MS %s %s) %s %s %s)' % (
-        kind, C.nat(inp['heads']), C.boolean(inp['train0']), C.boolean(inp['grad0']), C.z(inp['b']),
+        kind, C.nat(inp['heads']), C.lst([C.boolean(t) for t in modes_of(inp)]), C.boolean(inp['grad0']), C.z(inp['b']),
         C.zmat(inp['X']), C.lst([C.zmat(a['rows']) for a in inp['args']]))
     if not out['ok']:
         val = 'Err'
@@ -135,10 +150,11 @@ def coq_case(inp, out):
         val = '(Ok (YM %s))' % C.lst([rows_lit(h) for h in out['y']])
     else:
         val = '(Ok (YT %s))' % POISON
-    trace = C.lst(['(CR %s %s %s %s)' % (C.boolean(t['tr']), C.boolean(t['gr']), rows_lit(t['X']),
+    trace = C.lst(['(CR %s %s %s %s)' % (C.lst([C.boolean(x) for x in t['tr']]), C.boolean(t['gr']), rows_lit(t['X']),
                                          C.lst([rows_lit(a) for a in t['args']]))
                    for t in out['trace']])
-    return '(%s, (%s, %s), %s)' % (call, val, trace, C.boolean(out['unchanged']))
+    return '(%s, (%s, %s), %s, %s)' % (call, val, trace, C.boolean(out['unchanged']),
+                                       C.boolean(out.get('buffers_unchanged', True)))
 
 
 def aligned(inp):
@@ -166,7 +182,36 @@ def hist_key(inp, out):
         rel = 'b=n'
     else:
         rel = 'b|n' if n % b == 0 else 'b!|n'
-    return '%s/args%d/%s/%s' % (inp['kind'], len(inp['args']), rel, 'ok' if out['ok'] else 'raise')
+    return '%s/args%d/%s/%s/%s' % (inp['kind'], len(inp['args']), state_class(inp), rel,
+                                   'ok' if out['ok'] else 'raise')
+
+
+def state_class(inp):
+    m = modes_of(inp)
+    if all(m):
+        return 'all-train'
+    if not any(m):
+        return 'all-eval'
+    return 'root-eval+child-train' if not m[0] else 'root-train+child-eval'
+
+
+# module histories: freshly constructed (everything training), fully eval'd, root in eval mode
+# with some children back in training mode (model.eval(); model.drop.train() / a freshly built
+# sub-module swapped in), root in training mode with a frozen child
+STATES = [[True, True, True], [False, False, False],
+          [False, True, False], [False, False, True], [False, True, True],
+          [True, False, True], [True, True, False]]
+
+
+def pick_state(rng):
+    r = rng.random()
+    if r < 0.25:
+        return STATES[0]
+    if r < 0.45:
+        return STATES[1]
+    if r < 0.85:
+        return rng.choice(STATES[2:5])
+    return rng.choice(STATES[5:])
 
 
 def make(rng, n, b, nargs, kind, misalign=None):
@@ -190,7 +235,7 @@ def make(rng, n, b, nargs, kind, misalign=None):
         rows = [[100 * (k + 1) + tags[i]] + [rng.randint(0, 9) for _ in range(w - 1)] for i in range(m)]
         args.append({'rows': rows, 'shape': shape, 'dtype': rng.choice(['int', 'float'])})
     return {'kind': kind, 'heads': 1 if kind == 'tensor' else rng.randint(1, 3),
-            'train0': rng.random() < 0.5, 'grad0': rng.random() < 0.5, 'b': b,
+            'modes': pick_state(rng), 'grad0': rng.random() < 0.5, 'b': b,
             'X': X, 'xshape': xshape, 'args': args,
             'args_form': rng.choice(['tuple', 'list', 'none'] if nargs == 0 else ['tuple', 'list'])}
 
@@ -249,8 +294,12 @@ def shrink(inp):
         yield dict(inp, args=inp['args'][:k] + inp['args'][k + 1:])
     if inp['heads'] > 1:
         yield dict(inp, heads=inp['heads'] - 1)
-    if inp['train0'] or inp['grad0']:
-        yield dict(inp, train0=False, grad0=False)
+    if any(modes_of(inp)) or inp['grad0']:
+        yield dict(inp, modes=[False, False, False], grad0=False)
+    m = modes_of(inp)
+    for k in range(3):
+        if m[k]:
+            yield dict(inp, modes=m[:k] + [False] + m[k + 1:])
 
 
 def search(rng, disagreeing):
